@@ -77,6 +77,19 @@ fn push_arg(s: &mut String, t: &ValType, local: u32) { match t { ValType::I32 =>
 fn to_i32(s: &mut String, r: &[ValType]) { match r.first() { None => s.push_str(" i32.const 7"), Some(ValType::I32) => {}, Some(ValType::I64) => s.push_str(" i32.wrap_i64"), Some(ValType::F64) => s.push_str(" i32.trunc_sat_f64_u"), _ => s.push_str(" drop i32.const 9") } }
 
 pub fn gen_guest(r: &mut Rng, module: &str, api: &[ApiImport], class: &str) -> Guest {
+    if class == "mem64" {
+        // a guest whose own linear memory is 64-bit: the generated glue addresses memories with i32 operands, so the tool
+        // cannot handle it; it may refuse, but whatever it accepts must come out as a valid module
+        let mut s = String::from("(module\n");
+        let pick = *r.pick(&STRINGS);
+        for i in api.iter().filter(|i| i.name == pick || r.chance(15)) {
+            write!(s, "  (import \"{}\" \"{}\" (func", module, i.name).unwrap();
+            for p in &i.params { write!(s, " (param {})", vt(p)).unwrap(); } for q in &i.results { write!(s, " (result {})", vt(q)).unwrap(); }
+            s.push_str("))\n");
+        }
+        s.push_str("  (memory (export \"memory\") i64 1)\n  (func (export \"f0\") (param i32 i32) (result i32) local.get 0 local.get 1 i32.add)\n)\n");
+        return Guest { wat: s, class: class.to_string(), calls: vec![("f0".to_string(), vec![1, 2])] };
+    }
     let mut s = String::from("(module\n  (type $t2 (func (param i32 i32) (result i32)))\n");
     // ---- imports
     let mut names: Vec<&ApiImport> = api.iter().filter(|i| r.chance(if STRINGS.contains(&i.name.as_str()) { 60 } else { 35 })).collect();
@@ -229,7 +242,7 @@ pub struct Outcome { pub cases: String, pub imp: String, pub accepted: bool, pub
 
 pub fn run_case(engine: &Engine, id: usize, provider_module: &str, g: &Guest) -> Result<Outcome> {
     let wasm = wat::parse_str(&g.wat).map_err(|e| anyhow!("generator produced unparsable WAT (case {}): {:#}\n{}", id, e, g.wat))?;
-    let mut feats = wasmparser::WasmFeatures::default(); feats.set(wasmparser::WasmFeatures::MULTI_MEMORY, true);
+    let mut feats = wasmparser::WasmFeatures::default(); feats.set(wasmparser::WasmFeatures::MULTI_MEMORY, true); feats.set(wasmparser::WasmFeatures::MEMORY64, true);
     wasmparser::Validator::new_with_features(feats).validate_all(&wasm).map_err(|e| anyhow!("generator produced an invalid module (case {}): {:#}\n{}", id, e, g.wat))?;
     let a = abstract_module(&wasm)?;
     let mut cases = String::new();
@@ -289,7 +302,7 @@ pub fn run(args: &[String]) -> Result<()> {
     } else {
         let mut rng = Rng::new(seed);
         let n = if tier == "thorough" { 1500 } else { 160 };
-        let classes = ["valid", "valid", "valid", "valid", "all", "importedmem", "nomem", "nomem_pure", "unknown", "unknown", "version", "version", "badsig", "badsig", "twomem", "dup", "dupbad"];
+        let classes = ["valid", "valid", "valid", "valid", "all", "importedmem", "nomem", "nomem_pure", "unknown", "unknown", "version", "version", "badsig", "badsig", "twomem", "dup", "dupbad", "mem64"];
         let mut per_class = std::collections::BTreeMap::<String, u64>::new(); let mut verdicts = std::collections::BTreeMap::<String, u64>::new(); let mut ncalls = 0u64; let mut distinct = std::collections::BTreeSet::<String>::new();
         for id in 0..n {
             let mut r = rng.fork(id as u64);
